@@ -329,6 +329,47 @@ def gen_held_case(r):
     return {"cfgs": cfgs, "ev": ev, "kind": "held"}
 
 
+# ---------------------------------------------------------------- server side: Observe notifications
+def gen_observe_case(r):
+    """one session is a SERVER session with a registered observer; Confirmable notifications are
+    generated and sent INSIDE coap_io_prepare_epoll (event O): the wait that very call reports must
+    cover the notification's deadline; afterwards it is a Confirmable like any other.  One
+    notification at a time (they all carry the observer's token)."""
+    ns = r.choice([1, 2, 2, 3])
+    cfgs = [rand_cfg(r, nstart=r.choice([1, 1000])) for _ in range(ns)]
+    so = r.randrange(ns)
+    c = list(cfgs[so]); c[4] = r.choice([1, 2, 3, 4]); cfgs[so] = tuple(c)
+    mx = max(eff_max(c) for c in cfgs)
+    ev = [["G", so, hexb([r.randrange(256) for _ in range(r.choice([1, 2, 4, 8]))])]]
+    sent = []
+    mid = 100
+    for _ in range(r.randrange(1, 5)):
+        if ns > 1 and r.random() < 0.5:
+            s = r.choice([x for x in range(ns) if x != so])
+            m = rand_msg(r, s, mid)
+            mid += 1
+            sent.append(m)
+            ev.append(m)
+            ev.append(["A", r.choice([0, 1, 300, 1200])])
+        ev.append(["O", so, r.choice(R_BOUNDS + [r.randrange(256)])])
+        x = r.random()
+        if x < 0.35:                      # the peer acknowledges (after some retransmissions)
+            ev += drain(r.randrange(0, 3))
+            ev += [["A", r.choice([0, 1, 500])], ["K", so, "L"]]
+        elif x < 0.5:
+            ev += drain(r.randrange(0, 2))
+            ev += [["A", r.choice([0, 700])], ["R", so, "L"]]
+        elif x < 0.7:                     # the library's own loop sleeps as long as it reported
+            ev += [["I", 0]] * ((mx + 2) * (len(sent) + 1))
+        else:                             # lost: punctual driver until it is given up
+            ev += drain((mx + 2) * (len(sent) + 1), r.choice([0, 0, 5]))
+        if r.random() < 0.3:
+            ev.append(["Q"])
+    ev += drain((mx + 2) * (len(sent) + 1))
+    ev += [["T"], ["Q"]]
+    return {"cfgs": cfgs, "ev": ev, "kind": "observe"}
+
+
 # ---------------------------------------------------------------- the library's own I/O loop
 def gen_ioloop_case(r):
     """messages driven by coap_io_process() itself (epoll_wait interposed: it sleeps exactly as long
